@@ -48,6 +48,11 @@ var specs = map[string]spec{
 // bounded history crosses its boundaries). It fails loudly unless the
 // definition occurs exactly once.
 func constScale(out, rel, from, to string) {
+	constScaleMany(out, rel, [][2]string{{from, to}})
+}
+
+// constScaleMany is constScale for several definitions of one file.
+func constScaleMany(out, rel string, pairs [][2]string) {
 	repo := os.Getenv("VERIF_REPO")
 	if repo == "" {
 		repo = "/repo"
@@ -65,18 +70,22 @@ func constScale(out, rel, from, to string) {
 	if err != nil {
 		fatal("%v", err)
 	}
-	if n := strings.Count(string(b), from); n != 1 {
-		fatal("%s: %q occurs %d times, expected exactly once", src, from, n)
+	text := string(b)
+	for _, p := range pairs {
+		if n := strings.Count(text, p[0]); n != 1 {
+			fatal("%s: %q occurs %d times, expected exactly once", src, p[0], n)
+		}
+		text = strings.Replace(text, p[0], p[1], 1)
+		fmt.Printf("ovgen: %s: %s -> %s\n", rel, p[0], p[1])
 	}
 	dst := filepath.Join(outdir, filepath.Base(rel))
-	if err := os.WriteFile(dst, []byte(strings.Replace(string(b), from, to, 1)), 0o644); err != nil {
+	if err := os.WriteFile(dst, []byte(text), 0o644); err != nil {
 		fatal("%v", err)
 	}
 	ov, _ := json.MarshalIndent(map[string]any{"Replace": map[string]string{src: dst}}, "", " ")
 	if err := os.WriteFile(filepath.Join(outdir, "overlay.json"), ov, 0o644); err != nil {
 		fatal("%v", err)
 	}
-	fmt.Printf("ovgen: %s: %s -> %s\n", rel, from, to)
 }
 
 func fatal(format string, a ...any) {
@@ -87,6 +96,15 @@ func fatal(format string, a ...any) {
 func main() {
 	if len(os.Args) != 3 {
 		fatal("usage: ovgen <spec> <outdir>")
+	}
+	if os.Args[1] == "resetbatch2" {
+		// the state reset persists its block-removal and storage-item stages in intermediate batches of
+		// 200000 blocks / 200000 items; scaled to 2 so that a bounded reset has intermediate batches
+		constScaleMany(os.Args[2], "pkg/core/blockchain.go", [][2]string{
+			{"const persistBatchSize = 100 * headerBatchCount", "const persistBatchSize = 2"},
+			{"const persistBatchSize = 200000", "const persistBatchSize = 2"},
+		})
+		return
 	}
 	if os.Args[1] == "hdrbatch4" {
 		constScale(os.Args[2], "pkg/core/headerhashes.go", "headerBatchCount = 2000", "headerBatchCount = 4")
